@@ -189,7 +189,9 @@ class Sim:
                 self.stats["isolated_reference_fallback_unpicklable"] += 1
             except ChildFailure as e:
                 raise HarnessError(str(e))
-        return outcome(fn, Crystal(uc, sg, asym, titl=titl), self.A, {"dir": "/simfs/ref"})
+        # a directory of its own per reference query: a cache keyed by file
+        # name must not be able to serve the reference an older file
+        return outcome(fn, Crystal(uc, sg, asym, titl=titl), self.A, {"dir": "/simfs/ref/%d" % self.n_steps})
 
     # ----------------------------------------------------------------- logging
     def _log(self, i, hi, op, out):
